@@ -246,6 +246,23 @@ func c06Replay(c *Ctx) {
 				gated = append(gated, g)
 				mu.Unlock()
 				c.Count("gated_copy_stragglers", 1)
+			} else if a.Poison&128 != 0 && k < nAttempts-1 && a.How == 2 {
+				// a reader of the failed attempt's body that is in the middle of a tight read loop when the attempt returns
+				// (byte-wise reads: it is still far from the end of the body when the buffer prepares the next attempt)
+				stragglers.Add(1)
+				started := make(chan struct{})
+				go func(b io.Reader) {
+					defer stragglers.Done()
+					one := make([]byte, 1)
+					close(started)
+					for q := 0; q < 20000000; q++ {
+						if _, err := b.Read(one); err != nil {
+							return
+						}
+					}
+				}(req.Body)
+				<-started
+				c.Count("spinning_stragglers", 1)
 			} else if a.Poison&128 != 0 && k < nAttempts-1 {
 				// something keeps the failed attempt's body and goes on reading it after the attempt has returned
 				stragglers.Add(1)
